@@ -322,7 +322,7 @@ def graph_query_model(repo: Repo, qname: str) -> dict:
             call = next((e for e in searches if e.result is not None and term_of(e.result) in set(subterms(term_of(v)))), None)
             scalar, coll = set(), set()
             if call is not None:
-                for a in call.args:
+                for a in [*call.args, *call.kwargs.values()]:  # (keyword arguments too: partial(search, graph, dependent_upons=..))
                     r = roots_of(a) & {"P1", "P2"}
                     if not r:
                         continue
